@@ -188,9 +188,18 @@ def run_history(ctx, rng, n_ops, pool_ref):
 
   def new_from_source(via):
     src = gen_source(rng, rng.randint(1, 3), counter)
-    fd = FrozenDict(src) if via == 'ctor' else fcore.freeze(src)
+    form = rng.random()
+    kw = {}
+    if via == 'ctor' and form < 0.35:
+      # dict()-style constructor forms: positional mapping (plain or frozen) plus keyword entries, or keywords only
+      kw = {k: v for k, v in gen_source(rng, rng.randint(1, 2), counter).items() if k.isidentifier()}
+      pos = src if form < 0.12 else (FrozenDict(src) if form < 0.27 else None)
+      fd = FrozenDict(**kw) if pos is None else FrozenDict(pos, **kw)
+    else:
+      fd = FrozenDict(src) if via == 'ctor' else fcore.freeze(src)
     pool.add(fd)
     poison(ctx, src)  # mutate the source at every nesting level
+    poison(ctx, kw)
     return fd
 
   new_from_source('ctor')
